@@ -45,6 +45,7 @@ var rules = map[string]string{
 // list-based model cannot run in reasonable time)
 var extraChecks = map[string]func(r *rng, tier string, res *Result){
 	"C15": c15LargeGarbage,
+	"C02": c02LargeIndex,
 	"C03": cBackgroundDuringRecovery,
 	"C04": cBackgroundDuringRecovery,
 }
